@@ -431,6 +431,10 @@ func (s *v4Server) AddStaticLease(l *dhcpsvc.Lease) (err error) {
 
 	err = s.updateStaticLease(l)
 	if err != nil {
+		// The dynamic leases with the same properties may have already been
+		// removed, so store the changes.
+		s.conf.notify(LeaseChangedDBStore)
+
 		// Don't wrap the error, because it's informative enough as is.
 		return err
 	}
